@@ -73,6 +73,13 @@ func runMutant(id, patch string) (failed []string, errs []string, err error) {
 		all = append(all, r.Obls...)
 		for _, u := range r.Used {
 			uc := ld.cs.Funcs[u]
+			if uc != nil && uc.Iface {
+				for _, ic := range ld.implContracts(u) {
+					if !done[ic.Key] {
+						queue = append(queue, ic)
+					}
+				}
+			}
 			if uc == nil || uc.Assumed || uc.Iface || uc.Inline || done[u] || len(ld.fnByKey[u]) == 0 {
 				continue
 			}
